@@ -24,7 +24,10 @@ def replay(spec):
             reactions.append((list(r), [], "massaction", {"k": "kp%d" % i} if spec["named"] else {"k": ks[i]}))
             if spec["named"]:
                 params.append(("kp%d" % i, ks[i]))
-        M = Model(species=list(species), reactions=reactions, parameters=params)
+        try:
+            M = Model(species=list(species), reactions=reactions, parameters=params)
+        except Exception as e:        # a legal mass-action model must build
+            return {"reproduced": True, "observed": "Model(...) raised %s: %s" % (type(e).__name__, e), "expected": "a model"}
         ri = spec["rxn"]
         reactants = rxns[ri]
         k = ks[ri]
